@@ -97,6 +97,18 @@ void bn_rec_win(uint8_t *win, size_t *len, const bn_t k, size_t w) {
 
 	l = bn_bits(k);
 
+	if (l == 0) {
+		/* The zero scalar is the single window 0. */
+		if (*len < 1) {
+			*len = 0;
+			RLC_THROW(ERR_NO_BUFFER);
+			return;
+		}
+		memset(win, 0, *len);
+		*len = 1;
+		return;
+	}
+
 	if (*len < RLC_CEIL(l, w)) {
 		*len = 0;
 		RLC_THROW(ERR_NO_BUFFER);
